@@ -206,7 +206,7 @@ PROPS = {
                 "then by 4 goroutines x 5 runs each at once while 3 goroutines compile and run the same and other expressions (18 compiles); every result must equal the isolated one and the Lean model's; the harness is built with the race detector and any report fails the batch",
     },
     "C19": {
-        "streams": {"yenc": {"quick": 2000, "thorough": 100000},
+        "streams": {"ymkey": {"quick": 1, "thorough": 1}, "yenc": {"quick": 2000, "thorough": 100000},
                     "yencfuzz": {"quick": 4000, "thorough": 300000, "spec_proj": "encfuzz", "proj_model": True}},
         "trusted": ["encoding/json, danos/encoding/rfc7951 and encoding/xml (bytes <-> values, escaping) are trusted: the Lean model starts at JSON values / XML elements; the harness re-parses the produced bytes with encoding/json to obtain the value tree it compares",
                     "the conformance checker of decoded trees (harness) uses the real Type.Validate of the compiled schema"],
